@@ -347,6 +347,71 @@ struct BitsDriver : DriverBase<BitsDriver<B, W, IsBitset>> {
             }
             return;
         }
+        if (op == "proxy_held") {
+            // a reference obtained once names the bit, not a snapshot of it: while it is held the bit changes through the
+            // container, through a second reference and through the reference itself, and every read must see the bit
+            auto mm        = m;
+            bool stale     = false;
+            int staleAfter = -1;
+            bool ok        = call(a, false, false, [&] {
+                auto r  = v[pos];
+                auto r2 = v[pos];
+                for (int i = 0; i < 3; ++i) {
+                    int const act = static_cast<int>((st.k[2] >> (3 * i)) % 6);
+                    bool const x  = ((st.v[1] >> i) & 1U) != 0;
+                    switch (act) {
+                    case 0:
+                        if constexpr (IsBitset) {
+                            v.flip(pos);
+                        } else {
+                            v.unchecked_flip(pos);
+                        }
+                        mm.flip(pos);
+                        break;
+                    case 1:
+                        if constexpr (IsBitset) {
+                            v.set(pos, x);
+                        } else {
+                            v.unchecked_set(pos, x);
+                        }
+                        mm.set(pos, x);
+                        break;
+                    case 2:
+                        v.reset();
+                        mm.reset();
+                        break;
+                    case 3:
+                        r2 = x;
+                        mm.set(pos, x);
+                        break;
+                    case 4:
+                        r2.flip();
+                        mm.flip(pos);
+                        break;
+                    default:
+                        r = x;
+                        mm.set(pos, x);
+                        break;
+                    }
+                    bool const want = mm[pos];
+                    if ((static_cast<bool>(r) != want || (~r) == want || static_cast<bool>(r2) != want) && !stale) {
+                        stale      = true;
+                        staleAfter = act;
+                    }
+                }
+                r.flip();
+                mm.flip(pos);
+            });
+            if (ok) {
+                SIM_COUNT("reach.bit_reference_held_across_changes");
+                if (stale) {
+                    ctx.violation("C17", "diff:proxy-stale", "a held bit reference did not read the current bit after action " + std::to_string(staleAfter));
+                }
+                m = mm;
+                changed(before, m);
+            }
+            return;
+        }
         if (op == "proxy_flip") {
             bool ok = call(a, false, false, [&] { v[pos].flip(); });
             if (ok) {
@@ -619,7 +684,7 @@ struct BitsDriver : DriverBase<BitsDriver<B, W, IsBitset>> {
         static std::vector<OpDef> const o = {
             {"set_all", 4},   {"reset_all", 3},  {"flip_all", 6},   {"set_bit", 8},    {"reset_bit", 5}, {"flip_bit", 6}, {"proxy_assign", 5},
             {"proxy_copy", 4}, {"proxy_flip", 4}, {"read_bit", 2},   {"and_assign", 4}, {"or_assign", 4}, {"xor_assign", 4}, {"binary", 5},
-            {"recreate", 7},
+            {"recreate", 7},   {"proxy_held", 4},
         };
         return o;
     }
